@@ -38,6 +38,34 @@ PROPS = {
         real_vs_stub=L_REAL,
         assumptions=SIM_ASSUME + ["backend Save/Remove are atomic at a crash"],
     ),
+    "C12": dict(
+        pkg="internal/repository", test="TestVerifC12", level="exploration", quick_s=45, thorough_s=900,
+        text="seeded search over interleavings and timings of 2-3 processes running the real LockRepo / refresh / monitor / unlock / "
+             "RemoveStaleLocks code with the real timing constants on a simulated clock: shared and exclusive locks, retries, crashes, "
+             "per-process clock offsets, one bounded stall inside a lock operation, backend outages; at every quiescent point no two live "
+             "processes may both believe (lock context not cancelled, not unlocked) that they hold conflicting locks",
+        note="assumption bounds of the property made concrete: pairwise clock offset <= 6 min and one stall <= 6 min per process, both below "
+             "the 7.5 min staleness margin; lock operations run over the connection-limiting wrapper without the retry layer (a 15-minute retry "
+             "inside one operation would itself exceed the margin); listings are atomic snapshots",
+        design_ref="3 / C12",
+        rule="one run = generated plans (start time, shared/exclusive, retry-lock, hold time, work interval, unlock/crash, janitor, stall, outage, "
+             "clock offset, host) for 2-3 processes x seeded schedule; distinct = distinct event-log hash among runs with a real scheduling choice or fired fault",
+        real_vs_stub="real: lock.go, lock_file.go (newLock, refreshLocks, monitorLockRefresh, refreshStaleLock, RemoveStaleLocks), sema wrapper, Repository; "
+                     "simulated: object store, clock (per-process offset), PID/host table, goroutine choice",
+        assumptions=SIM_ASSUME + ["pairwise clock offset <= 6 min, one stall <= 6 min inside a lock operation per process, no retry layer under the lock code"],
+    ),
+    "C13": dict(
+        pkg="internal/repository", test="TestVerifC13", level="exploration", quick_s=45, thorough_s=900,
+        text="same simulated multi-process lock scenarios as C12; monitors per holder: without faults a lock file younger than the refresh "
+             "interval always exists; every repository modification the holder starts happens while its newest lock file cannot yet be judged "
+             "stale by any other process within the assumed clock bound (also after failed refreshes, outages, removal by others); the holder "
+             "never removes its own lock file while holding unless another one of its own exists; after a fault-free unlock none of its lock files remains",
+        note="'stops issuing modifications' is judged at the arrival of non-lock Save/Remove operations at the store; same assumption bounds as C12",
+        design_ref="3 / C13",
+        rule="one run = generated plans for 2-3 processes x seeded schedule (see C12); distinct = distinct event-log hash among runs with a real scheduling choice or fired fault",
+        real_vs_stub="real: lock.go, lock_file.go, sema wrapper, Repository; simulated: object store, clock, PID/host table, goroutine choice",
+        assumptions=SIM_ASSUME + ["pairwise clock offset <= 6 min, one stall <= 6 min inside a lock operation per process, no retry layer under the lock code"],
+    ),
     "C15": dict(
         pkg="cmd/restic", test="TestVerifC15", level="exploration", quick_s=60, thorough_s=900,
         text="generated histories of 2-8 operations over backup, forget, prune, forget --prune, tag, rewrite --exclude, key add/passwd and repair "
